@@ -138,7 +138,7 @@ def gen_thread(rng, t, behav, max_ops, force_raise=False):
     elif r < 0.68:
       ops.append({'op': 'build', 'c': c})
     elif r < 0.73:
-      ops.append({'op': rng.choice(['deepcopy', 'deepcopy', 'copy', 'pickle']), 'c': c})
+      ops.append({'op': rng.choice(['deepcopy', 'copy', 'pickle', 'pickle']), 'c': c})
       fn_of.append(fn)
     elif r < 0.76:
       arg = rng.choice(NAMES[fn]) if NAMES[fn] else 0
